@@ -21,7 +21,7 @@ CMP = ("x", "fun", "jac", "nfev", "njev", "nit", "message", "status", "success",
 
 def floors(tier):
     return {"pairs_compared": 300, "evaluation_points_compared": 5000, "callback_states_compared": 1500, "scaler_argument_checks": 300,
-            "target_runs": 100, "target_runs_with_the_target_a_few_ulp_below_a_visited_value": 100, "target_stops": 30, "packaged_scaler_pairs": 20, "finite_difference_pairs": 40,
+            "target_runs": 100, "pairs_stopped_by_their_callback_between_the_scaled_and_the_unscaled_target": 40, "target_runs_with_the_target_a_few_ulp_below_a_visited_value": 100, "target_stops": 30, "packaged_scaler_pairs": 20, "finite_difference_pairs": 40,
             "pairs_with_identity_update_function": 40, "pairs_with_a_factor_within_1e-5_of_one": 30, "pairs_with_an_update_function_switching_on_a_ridge_term": 40, "pairs_with_reused_gradient_buffer": 40, "pairs_from_a_start_beyond_unit_step_resolution": 20, "pairs_with_infinite_trial_values": 8, "__nontrivial__": 100}
 
 
@@ -35,7 +35,7 @@ def cases(tier, seed):
             "maxcor": int(rng.integers(1, 11)),
             "maxls": int(gen.pick(rng, [2, 3, 5, 20, 20])),
             "maxiter": int(gen.pick(rng, [3, 6, 12, 30])),
-            "maxfun": int(gen.pick(rng, [20, 100, 15000])),
+            "maxfun": int(gen.pick(rng, [6, 9, 13, 20, 100, 15000])),
             "ftol": float(gen.pick(rng, [0.0, 1e-12, 1e-6])),
             "gtol": float(gen.pick(rng, [1e-9, 1e-5, 1e-5, 1e2])),
             "cb": "never",
@@ -266,6 +266,17 @@ def run(spec):
                 if A2.snap["message"] == MESSAGES["TARGET"] and not (A2.snap["fun"] / s <= T2):
                     out.violate("target_tested_on_scaled_value", f"{name} s={s!r}: TARGET stop with fun/s = {A2.snap['fun'] / s!r} > ftarget = {T2!r} "
                                 f"(the target sits {spec.get('target_ulps', 2)} ulp below the value of iterate {kk + 1})", **tagsS)
+    # ... and with a callback that stops the run at an iterate whose scaled value is below the target while its unscaled value is above it:
+    # the user asked to stop, the target is not met
+    if ok and A.exc is None and len(A.cb) >= 2 and spec["s"] != "packaged" and s < 1.0 and not spec.get("ufd_ridge"):
+        kk = len(A.cb) // 2
+        fk = float(A.cb[kk]["snap"]["fun"]) / s
+        if np.isfinite(fk) and fk > 0:
+            T3 = 0.5 * (s * fk + fk)
+            A3 = probes.run_min(P, dict(cfg, scaler=scaler_cfg, ftarget=T3, cb=kk + 1))
+            B3 = probes.run_min(P, dict(cfg, explicit_scale=s, ftarget=s * T3, cb=kk + 1))
+            out.count("pairs_stopped_by_their_callback_between_the_scaled_and_the_unscaled_target")
+            compare_runs(out, A3, B3, f"{name} s={s!r} stopped by its callback at iteration {kk + 1} with a target between s*f and f", tagsS)
     if cfg.get("reuse_grad_buffer"):
         out.count("pairs_with_reused_gradient_buffer")
     # (a scaler introduced on a restart leg is NOT compared with an explicitly scaled continuation: the restored history holds the
